@@ -41,6 +41,9 @@ SCENARIOS = {
     "presized_larger": dict(writers=2, n=10, layout="interleaved", presize=16, readers=1),
     "big_texts": dict(writers=2, n=8, layout="interleaved", presize=None, readers=2),
     "sessions": dict(writers=2, n=12, layout="sessions", presize=None, readers=1),
+    # the same under an interpreter whose default text encoding is ASCII (LC_ALL=C, UTF-8 mode off): a text the files cannot
+    # hold may be refused (UnicodeEncodeError, nothing recorded under its identifier); whatever is accepted is read back exactly
+    "ascii_locale": dict(writers=2, n=18, layout="interleaved", presize=None, readers=1, allow_refused=True),
 }
 
 
@@ -68,8 +71,14 @@ def writer(name, cfg, storage, w, errq):
             storage.close()
         else:
             storage.open()
-            for g in ids:
-                storage[g] = text_for(name, g)
+            for g in list(ids):
+                try:
+                    storage[g] = text_for(name, g)
+                except UnicodeError:
+                    if not cfg.get("allow_refused"):
+                        raise
+                    errq.put(("refused", g))
+                    ids.remove(g)
                 time.sleep(0.002)  # lets the readers poll between two stores
             # a second store under an identifier of one's own: ValueError, nothing changes
             if ids:
@@ -109,6 +118,14 @@ def reader(name, cfg, storage, r, stop, errq):
 
 
 def main(name):
+    if name == "ascii_locale" and os.environ.get("C14_ASCII_CHILD") != "1":
+        import subprocess
+        env = dict(os.environ, LC_ALL="C", LANG="C", PYTHONUTF8="0", PYTHONCOERCECLOCALE="0", C14_ASCII_CHILD="1",
+                   PYTHONIOENCODING="utf-8")
+        p = subprocess.run([sys.executable, "-m", "harness.realstorage", name], env=env, stdout=subprocess.PIPE,
+                           stderr=subprocess.STDOUT, text=True)
+        print(p.stdout, end="")
+        return p.returncode
     from windpyutils.parallel.storage import TextFileStorage
     cfg = SCENARIOS[name]
     ctx = multiprocessing.get_context("fork")
@@ -129,6 +146,7 @@ def main(name):
         for p in rs:
             p.join()
         reads = hits = 0
+        refused = set()
         deadline = time.time() + 2
         seen_stats = 0
         while seen_stats < cfg["readers"] and time.time() < deadline:
@@ -136,18 +154,23 @@ def main(name):
                 m = errq.get(timeout=0.2)
             except Exception:  # noqa: queue.Empty
                 continue
-            if isinstance(m, tuple):
+            if isinstance(m, tuple) and m[0] == "refused":
+                refused.add(m[1])
+            elif isinstance(m, tuple):
                 seen_stats += 1
                 reads += m[1]
                 hits += m[2]
             else:
                 problems.append(m)
+        time.sleep(0.05)
         while not errq.empty():
             m = errq.get()
-            if not isinstance(m, tuple):
+            if isinstance(m, tuple) and m[0] == "refused":
+                refused.add(m[1])
+            elif not isinstance(m, tuple):
                 problems.append(m)
-        print(f"STATS reads={reads} hits={hits}")
-        stored = sorted(g for w in range(cfg["writers"]) for g in ids_of(cfg, w))
+        print(f"STATS reads={reads} hits={hits} refused={len(refused)}")
+        stored = sorted(g for w in range(cfg["writers"]) for g in ids_of(cfg, w) if g not in refused)
         if not problems:
             if len(storage) != len(stored):
                 problems.append(f"len() is {len(storage)}, {len(stored)} identifiers were stored")
